@@ -156,7 +156,8 @@ func findFirstBetween(value, sub, start, finish any) (any, error) {
 		for k := 0; k < j; k++ {
 			_, sz := utf8.DecodeRuneInString(s[n:])
 			if sz == 0 {
-				return nil, nil
+				// The end lies beyond the last character.
+				break
 			}
 
 			n += sz
@@ -377,7 +378,8 @@ func findLastBetween(value, sub, start, finish any) (any, error) {
 		for k := 0; k < j; k++ {
 			_, sz := utf8.DecodeRuneInString(s[n:])
 			if sz == 0 {
-				return nil, nil
+				// The end lies beyond the last character.
+				break
 			}
 
 			n += sz
